@@ -272,6 +272,13 @@ def _suffix_of(dims, all_dims):
     return k <= len(all_dims) and all(a is b for a, b in zip(dims, all_dims[len(all_dims) - k:]))
 
 
+def walk_signature_is_standard(fn):
+    import inspect
+
+    ps = list(inspect.signature(fn).parameters.values())
+    return len(ps) == 5 and all(p.kind is p.POSITIONAL_OR_KEYWORD and p.default is p.empty for p in ps)
+
+
 def install_walk(C):
     real = C.__dict__["_walk"]
     if getattr(real, "__cv_cube_layer__", False):
@@ -339,7 +346,23 @@ def install_walk(C):
     _walk.__cv_cube_layer__ = True
     _walk.__wrapped_real__ = real
     _walk.__name__ = "_walk"
-    C._walk = _walk
+    if walk_signature_is_standard(real):
+        C._walk = _walk
+    else:
+        # `_walk` is private: with another signature its per-branch contract does not bind (stale, not a failure);
+        # the public walk / interactions contracts below still judge the whole trace, the recording moves to walk
+        real_walk = C.__dict__["walk"]
+
+        def walk_recording(self, func_or_funcs):
+            if isinstance(func_or_funcs, (tuple, list)):
+                fs = type(func_or_funcs)(f if type(f) is Recorder else Recorder(i, f) for i, f in enumerate(func_or_funcs))
+            else:
+                fs = func_or_funcs if type(func_or_funcs) is Recorder else Recorder(0, func_or_funcs)
+            return real_walk(self, fs)
+
+        walk_recording.__name__ = "walk"
+        walk_recording.__doc__ = real_walk.__doc__
+        C.walk = walk_recording
 
     # ---- walk(func_or_funcs)
     def nf(func_or_funcs):
